@@ -251,6 +251,8 @@ pub struct Env {
     pub sent_down: Vec<Vec<u8>>,
     /// number of delivered frames the property statements are silent about (oracles stand down)
     pub unspecified_seen: u64,
+    /// size of the device's own radio buffer (frames longer than it are outside every statement)
+    pub device_buf_cap: usize,
     /// the device was restored from a structurally mutated document (only panic-freedom is judged)
     pub mutated_session: bool,
     pub delivered: Vec<Delivered>,
@@ -295,6 +297,7 @@ impl Env {
             pending_join: None,
             sent_down: Vec::new(),
             unspecified_seen: 0,
+            device_buf_cap: 256,
             mutated_session: false,
             delivered: Vec::new(),
             trace: Vec::new(),
@@ -594,7 +597,7 @@ impl Env {
         let class_a = matches!(win, Win::Rx1 | Win::Rx2);
         let last_before = self.refs.as_ref().and_then(|s| s.last_down);
         let joined_before = self.refs.is_some();
-        let verdict = if bytes.len() > buf.len() {
+        let verdict = if bytes.len() > buf.len().min(self.device_buf_cap) {
             // the application chose a radio buffer that cannot hold this frame: nothing is specified
             Verdict::Unspecified("frame-longer-than-radio-buffer")
         } else {
